@@ -325,7 +325,7 @@ class CheckC01(Check):
     ]
     fault_kinds = ["rng:uniform:lo", "rng:uniform:hi", "rng:uniform:lo+", "rng:uniform:hi-", "uniform-returned-endpoint",
                    "rng:randint:first", "rng:randint:last", "rng:choice:minp", "rng:choice:first", "rng:choice:last"]
-    probe_names = ["zero-width-cell-created"]
+    probe_names = []
 
     def generate(self, r, seed, tier):
         algo = gen.weighted(r, [("T_HOO", 2), ("HCT", 2), ("VHCT", 2), ("POO", 3), ("GPO", 3), ("PCT", 1.5), ("VPCT", 1.5),
